@@ -27,5 +27,6 @@ INVARIANT ShortCircuitsPreserveValue
 INVARIANT BuiltIsExpr
 INVARIANT CompositionalIsDenotational
 INVARIANT LawOverrideExact
+INVARIANT EvaluationIsPure
 INVARIANT Emit
 CHECK_DEADLOCK FALSE
